@@ -1,9 +1,109 @@
-(* C18 -- regex length and suffix analysis is exact and safe. *)
-From Coq Require Import List NArith.
-Import ListNotations.
-Require Import Pk.RegexProg.
+(* C18 -- regex length and suffix analysis is exact and safe.
 
-(* placeholder sanity example, replaced by the theorems of RegexProgProofs.v *)
-Example c18_model_runs :
-  accepted_length (mkProg [mkInst IFail 0 0 [] []; mkInst IRune1 2 0 [97%N] []; mkInst IMatch 0 0 [] []] 1) = Some (1%N, 1%N).
-Proof. vm_compute. reflexivity. Qed.
+   Model: theories/RegexProg.v (programs of rsc.io/binaryregexp/syntax as dumped by the harness, the walks of
+   internal/tools/regexAnalysis/regexAnalysis.go). `accepts p w`: some path of p from its start to a Match
+   instruction consumes exactly the bytes w (empty-width assertions pass: exact for assertion-free programs,
+   an over-approximation otherwise; tied to the real matcher by enumeration in checks/c18.py).
+   `len w` is the length as N, MAXU = 2^64-1 is the code's "infinite".
+   accepted_length_cached is AcceptedLength as written (memo table, after fixes/C18-cache-context.patch),
+   accepted_length the same walk without the table, accepted_length_cached_v0 the table before the fix. *)
+From Coq Require Import List NArith Bool.
+Import ListNotations.
+Require Import Pk.RegexProg Pk.RegexProgProofs.
+Local Open Scope N_scope.
+
+(* ---- the analyses return a result on every well-formed program (no fuel exhaustion, no index out of range) *)
+Theorem c18_accepted_length_total : forall p, wf p = true -> exists r, accepted_length_cached p = Some r.
+Proof. exact accepted_length_cached_total. Qed.
+
+Theorem c18_accepted_length_nocache_total : forall p, wf p = true -> exists r, accepted_length p = Some r.
+Proof. exact accepted_length_total. Qed.
+
+Theorem c18_constant_suffix_total : forall p, wf p = true -> exists s, constant_suffix p = Some s.
+Proof. exact constant_suffix_total. Qed.
+
+(* ---- AcceptedLength (with its memo table): safe and exact, for every program *)
+Theorem c18_length_sound : forall p mn mx w,
+  accepted_length_cached p = Some (mn, mx) -> accepts p w ->
+  mn <= len w /\ (mx < MAXU -> len w <= mx).
+Proof. exact cached_length_sound. Qed.
+
+Theorem c18_min_attained : forall p mn mx,
+  accepted_length_cached p = Some (mn, mx) -> sat p = true -> mn < MAXU ->
+  exists w, accepts p w /\ len w = mn.
+Proof. exact cached_min_attained. Qed.
+
+Theorem c18_max_attained : forall p mn mx,
+  accepted_length_cached p = Some (mn, mx) -> sat p = true -> mx < MAXU ->
+  exists w, accepts p w /\ len w = mx.
+Proof. exact cached_max_attained. Qed.
+
+(* ---- the same for the walk without the memo table *)
+Theorem c18_nocache_length_sound : forall p mn mx w,
+  accepted_length p = Some (mn, mx) -> accepts p w ->
+  mn <= len w /\ (mx < MAXU -> len w <= mx).
+Proof. exact nocache_length_sound. Qed.
+
+Theorem c18_nocache_min_attained : forall p mn mx,
+  accepted_length p = Some (mn, mx) -> sat p = true -> mn < MAXU -> exists w, accepts p w /\ len w = mn.
+Proof. exact nocache_min_attained. Qed.
+
+Theorem c18_nocache_max_attained : forall p mn mx,
+  accepted_length p = Some (mn, mx) -> sat p = true -> mx < MAXU -> exists w, accepts p w /\ len w = mx.
+Proof. exact nocache_max_attained. Qed.
+
+(* ---- cache transparency: the table never changes the minimum, and never changes a finite maximum.
+   What is not proved (hence _partial): that the table never turns a finite maximum into "infinite" or back;
+   the check compares both walks on every compiled program it sees. *)
+Theorem c18_cache_transparent_min : forall p r rc, sat p = true ->
+  accepted_length p = Some r -> accepted_length_cached p = Some rc -> fst rc = fst r.
+Proof. exact cache_transparent_min. Qed.
+
+Theorem c18_cache_transparent_max_partial : forall p r rc, sat p = true ->
+  accepted_length p = Some r -> accepted_length_cached p = Some rc ->
+  snd r < MAXU -> snd rc < MAXU -> snd rc = snd r.
+Proof. exact cache_transparent_max_finite. Qed.
+
+(* ---- ConstantSuffix: every accepted word ends with the computed suffix *)
+Theorem c18_suffix_sound : forall p s w,
+  wf p = true -> constant_suffix p = Some s -> accepts p w -> exists pre, w = pre ++ s.
+Proof. exact constant_suffix_sound. Qed.
+
+(* ---- the acceptor used by the correspondence check only accepts accepted words *)
+Theorem c18_acceptor_sound : forall p w, accepts_b p w = true -> accepts p w.
+Proof. exact accepts_b_sound. Qed.
+
+(* ---- the memo table as it was before the fix is unsound: b?b+ (program as compiled by binaryregexp)
+   gets minimum 2 although the one-byte word "b" is accepted. Replayed on the Go code: corpus/C18/opt-then-plus-1.json *)
+Definition prog_bqbp : prog := mkProg
+  [ mkInst IFail 0 0 [] []; mkInst IRune1 3 0 [98] []; mkInst IAlt 1 3 [] [];
+    mkInst IRune1 4 0 [98] []; mkInst IAlt 3 5 [] []; mkInst IMatch 0 0 [] [] ] 2.
+
+Theorem c18_cache_v0_refuted :
+  wf prog_bqbp = true /\ sat prog_bqbp = true /\
+  accepted_length_cached_v0 prog_bqbp = Some (2, MAXU) /\ accepts prog_bqbp [98] /\
+  accepted_length_cached prog_bqbp = Some (1, MAXU) /\ accepted_length prog_bqbp = Some (1, MAXU).
+Proof.
+  repeat split; try (vm_compute; reflexivity).
+  apply accepts_b_sound. vm_compute. reflexivity.
+Qed.
+
+(* ---- non-vacuity of the hypotheses *)
+(* (?:a|bb){2}c? : finite bounds, both attained *)
+Definition prog_ex : prog := mkProg
+  [ mkInst IFail 0 0 [] []; mkInst IRune1 5 0 [97] []; mkInst IRune1 3 0 [98] []; mkInst IRune1 5 0 [98] [];
+    mkInst IAlt 1 2 [] []; mkInst IAlt 6 7 [] []; mkInst IRune1 9 0 [97] []; mkInst IRune1 8 0 [98] [];
+    mkInst IRune1 9 0 [98] []; mkInst IAlt 10 11 [] []; mkInst IRune1 11 0 [99] []; mkInst IMatch 0 0 [] [] ] 4.
+
+Example c18_ex_wf : wf prog_ex = true /\ sat prog_ex = true /\ assertion_free prog_ex = true.
+Proof. vm_compute. auto. Qed.
+Example c18_ex_len : accepted_length_cached prog_ex = Some (2, 5) /\ accepted_length prog_ex = Some (2, 5).
+Proof. vm_compute. auto. Qed.
+Example c18_ex_accepts : accepts prog_ex [97; 97] /\ accepts prog_ex [98; 98; 98; 98; 99].
+Proof. split; apply accepts_b_sound; vm_compute; reflexivity. Qed.
+(* foo.*bar has the suffix "bar"... no: a loop in front empties it; abc|bc has "bc" *)
+Definition prog_suf : prog := mkProg
+  [ mkInst IFail 0 0 [] []; mkInst IRune1 2 0 [97] []; mkInst IRune1 3 0 [98] []; mkInst IRune1 7 0 [99] [];
+    mkInst IRune1 5 0 [98] []; mkInst IRune1 7 0 [99] []; mkInst IAlt 1 4 [] []; mkInst IMatch 0 0 [] [] ] 6.
+Example c18_ex_suffix : wf prog_suf = true /\ constant_suffix prog_suf = Some [98; 99].
+Proof. vm_compute. auto. Qed.
